@@ -7,7 +7,7 @@ from . import common as C
 HANDLE_PROPS = ["C01", "C02", "C03", "C04", "C07", "C08", "C13"]
 
 
-def run_harness(binp, args, outfile, timeout=600, max_restarts=200):
+def run_harness(binp, args, outfile, timeout=600, max_restarts=60):
     """Run vh-handles, restarting after a crash of the code under test.  A crash inside an
     operation becomes an `abort` event (data for the law monitor, not a tool error)."""
     if os.path.exists(outfile):
@@ -22,9 +22,12 @@ def run_harness(binp, args, outfile, timeout=600, max_restarts=200):
         cmd = [binp] + list(args) + ["--out", outfile]
         if start is not None:
             cmd += ["--start", str(start)]
+        in_obs = False
         try:
             r = subprocess.run(cmd, stdout=subprocess.PIPE, stderr=subprocess.PIPE, timeout=timeout)
             rc = r.returncode
+            tail = [ln for ln in r.stderr.decode(errors="replace")[-400:].split("\n") if ln.startswith("#obs")]
+            in_obs = bool(tail) and tail[-1] == "#obs"
         except subprocess.TimeoutExpired:
             rc = -999
         if rc == 0:
@@ -55,6 +58,8 @@ def run_harness(binp, args, outfile, timeout=600, max_restarts=200):
             if last_intent is not None and not seen_after:
                 ev = json.loads(last_intent)
                 ev["out"]["sig"] = rc
+                if in_obs:
+                    ev["out"]["v"] = -8      # the operation returned; reading the handles afterwards crashed
                 f.write(json.dumps(ev, separators=(",", ":")) + "\n")
                 crashes.append({"pid": last_pid, "i": ev["i"], "op": ev["op"], "rc": rc})
             else:
@@ -66,7 +71,10 @@ def run_harness(binp, args, outfile, timeout=600, max_restarts=200):
         if last_pid is None:
             raise C.ToolError("harness died before the first program (rc=%s)" % rc)
         start = last_pid + 1 if "--random" in args else (base_start + nreset)
-    raise C.ToolError("harness crashed more than %d times" % max_restarts)
+    # the code under test crashes in (nearly) every program: that is data, not a tool error; the
+    # programs run so far are validated and the rest of the batch is dropped
+    C.log("[handles] %d crashes: remaining programs of this batch dropped" % len(crashes))
+    return crashes
 
 
 def clean_trace(raw, clean):
@@ -242,5 +250,8 @@ def report(prop, results, tier, seed, t0, extra_cov=None, assumptions=None, leve
         cov["design_model"] = mc
     if extra_cov:
         cov.update(extra_cov)
-    C.write_evidence(prop, tier, seed, level, cov, assumptions or [], time.time() - t0, len(new))
+    extra_viol = 0
+    if extra_cov and "_extra_violations" in extra_cov:
+        extra_viol = extra_cov.pop("_extra_violations")
+    C.write_evidence(prop, tier, seed, level, cov, assumptions or [], time.time() - t0, len(new) + extra_viol)
     return rc
